@@ -13,3 +13,20 @@ package hap
 //@   loop 0
 //@     invariant nnBounds: 0 <= nn && nn <= len(p)
 //@     decreases len(p) - nn
+
+// ---- devices: accessors of immutable identity data
+
+//@ invoke "github.com/brutella/hc/hap.SecuredDevice.Name"(d) (s)
+//@   pure
+//@ invoke "github.com/brutella/hc/hap.SecuredDevice.Pin"(d) (s)
+//@   pure
+//@ invoke "github.com/brutella/hc/hap.SecuredDevice.PrivateKey"(d) (k)
+//@   pure
+//@ invoke "github.com/brutella/hc/hap.SecuredDevice.PublicKey"(d) (k)
+//@   pure
+//@ invoke "github.com/brutella/hc/hap.Device.Name"(d) (s)
+//@   pure
+//@ invoke "github.com/brutella/hc/hap.Device.PrivateKey"(d) (k)
+//@   pure
+//@ invoke "github.com/brutella/hc/hap.Device.PublicKey"(d) (k)
+//@   pure
